@@ -327,8 +327,18 @@ def check_finalize_path(chk, rule, rel, cls, meth, attr, fin='finalize_symmetric
     detail = ''
     for s in stores:
         var = norm(cfg.nodes[s].value)
-        fins = cfg.ids_where(lambda i, n: isinstance(n, ast.Assign) and norm(n.targets[0]) == var and
-                             isinstance(n.value, ast.Call) and callee_name(n.value) == fin and norm(n.value.args[0]) == var)
+        def is_fin(n):
+            if not (isinstance(n, ast.Assign) and norm(n.targets[0]) == var and isinstance(n.value, ast.Call)):
+                return False
+            c = n.value
+            if callee_name(c) == fin and c.args and norm(c.args[0]) == var:
+                return True
+            # the helper written out: csr_matrix(make_symmetric(x)) is what finalize_symmetric_matrix returns
+            if fin == 'finalize_symmetric_matrix' and callee_name(c) == 'csr_matrix' and c.args and isinstance(c.args[0], ast.Call) \
+                    and callee_name(c.args[0]) == 'make_symmetric' and c.args[0].args and norm(c.args[0].args[0]) == var:
+                return True
+            return False
+        fins = cfg.ids_where(lambda i, n: is_fin(n))
         if not fins:
             ok = False
             detail = 'no %s = %s(%s) before the store' % (var, fin, var)
